@@ -592,8 +592,9 @@ def merge(c, a, b):
     if isinstance(a, GList) and isinstance(b, GList) and len(a.items) == len(b.items):
         return GList([(b_ite(c, ga, gb) if (ga is not gb) else ga, merge(c, va, vb))
                       for (ga, va), (gb, vb) in zip(a.items, b.items)])
-    if isinstance(a, str) and isinstance(b, str):
-        raise CannotMerge('distinct strings')
+    from .strings import XStr, str_merge
+    if isinstance(a, (str, XStr)) and isinstance(b, (str, XStr)):
+        return str_merge(c, a, b)
     raise CannotMerge(f'{type(a).__name__} / {type(b).__name__}')
 
 
